@@ -49,6 +49,7 @@ import (
 	"os"
 	"path/filepath"
 	"sort"
+	"time"
 
 	"github.com/canopy-network/canopy/bft"
 	"github.com/canopy-network/canopy/controller"
@@ -78,6 +79,7 @@ type Network struct {
 	IsolateProcessCaches bool
 	active               *Node
 	nodes                []*Node
+	voteWindow           bool
 }
 
 // Options tweak the genesis before it is written.
@@ -85,6 +87,11 @@ type Options struct {
 	BlockSize      uint64 // params.consensus.blockSize (0 = default 1MB)
 	AccountBalance uint64 // balance of each funded account (0 = 1e12)
 	MutateGenesis  func(g *fsm.GenesisState)
+	// ProposalVoteWindow: every node is put inside the "proposal vote window" of a height (the first
+	// rounds of a young height), in which the controller runs proposers and validators in APPROVE_LIST
+	// mode (governance proposals listed in <dataDir>/proposals.json are accepted) instead of
+	// REJECT_ALL. See Node.OpenProposalVoteWindow.
+	ProposalVoteWindow bool
 }
 
 // detKeyBytes derives 32 deterministic bytes for key number i of a kind.
@@ -174,6 +181,11 @@ func NewNetwork(seed int64, nValidators int, stakes []uint64, nAccounts int, opt
 	cfg.StoreConfig.InMemory = true
 	cfg.MetricsConfig.MetricsEnabled = false
 	cfg.MempoolConfig.LazyMempoolCheckFrequencyS = 0
+	if opt.ProposalVoteWindow {
+		// a block time of ~12 days: the BFT's phase timer never fires and the vote window never closes
+		cfg.NewHeightTimeoutMs = 1_000_000_000
+		n.voteWindow = true
+	}
 	n.Config = cfg
 	return n
 }
@@ -247,6 +259,46 @@ func (nd *Node) open() {
 		panic(fmt.Sprintf("initial CheckMempool: %v", e))
 	}
 	reset()
+	if nd.Net.voteWindow {
+		nd.OpenProposalVoteWindow()
+	}
+}
+
+// OpenProposalVoteWindow makes currentProposalVoteConfig() answer APPROVE_LIST, as it does in a node
+// during the first rounds of a height less than three block times old. The deadline it reads is an
+// unexported field of the BFT that only the BFT's own loop sets (on a NEW_HEIGHT reset), so the loop
+// is started and handed exactly one reset; with the network's very long NewHeightTimeout its phase
+// timer never fires, it never sends anything and it only parks on its select. This is the one place
+// where the harness runs a goroutine of the node, and only for networks built with
+// Options.ProposalVoteWindow.
+func (nd *Node) OpenProposalVoteWindow() {
+	if nd.C.Consensus.ProposalVoteDeadlineUnixMilli() != 0 {
+		return
+	}
+	go nd.C.Consensus.Start()
+	nd.C.Consensus.ResetBFT <- bft.ResetBFT{}
+	for i := 0; nd.C.Consensus.ProposalVoteDeadlineUnixMilli() == 0; i++ {
+		if i > 60000 {
+			panic("harness: the BFT loop did not take the reset")
+		}
+		time.Sleep(time.Millisecond)
+	}
+}
+
+// ApproveProposals writes <dataDir>/proposals.json (shared by every node of the network: one vote
+// configuration) approving the given governance transactions.
+func (n *Network) ApproveProposals(txs ...[]byte) {
+	m := map[string]any{}
+	for _, tx := range txs {
+		m[crypto.HashString(tx)] = map[string]any{"proposal": map[string]any{}, "approve": true}
+	}
+	bz, err := json.Marshal(m)
+	if err != nil {
+		panic(err)
+	}
+	if err = os.WriteFile(filepath.Join(n.Dir, lib.ProposalsFilePath), bz, 0o644); err != nil {
+		panic(err)
+	}
 }
 
 func (nd *Node) close() {
